@@ -74,6 +74,10 @@ def gen(stratum, rng, tier):
         base = rng.choice(["supported", "grammar", "global", "mixed", "sums", "planted-unique"])
     spec = cpgen.gen_spec(base, rng)
     case = {"spec": spec, "hints": [None], "limits": rng.sample([1, 3, 100], 2)}
+    if rng.random() < 0.35:
+        # documented pass-through of solver options (Model.solve(**kwargs) -> solve_sat): restart schedules that make
+        # the small encoded formulas restart, which they never do at the default luby_factor=100
+        case["sat_kw"] = {"luby_factor": rng.choice([1, 1, 2, 3])}
     if stratum == "hints":
         hs = []
         for _ in range(3):
@@ -155,6 +159,8 @@ def run(case, obs):
                 _l2["prop"].clear()
                 _satmon.drain()
                 kw = {"solver": solver, "solution_limit": limit}
+                kw.update(case.get("sat_kw") or {})
+                cfg.update(case.get("sat_kw") or {})
                 if hints is not None:
                     kw["hints"] = dict(hints)
                 res = call(obs, model.solve, what=f"Model.solve({solver})", budget=60_000_000, **kw)
